@@ -352,6 +352,46 @@ theorem unpadded_append (p : Padder) (hv : Valid p) (st : PadState) (hflag : st.
     loopYields_append p st m1 m2 n1 n2 hlen, and_true, true_and]
   simp [Nat.add_mul, Nat.add_assoc]
 
+/-! ### reuse of one object: `reset()` / `.new` -/
+
+/-- whatever state the object is in (mid-message, padded, any counters), `reset()` / `.new` puts it into the state of a
+    freshly constructed object — pad flag clear, bit counter 0, pad-bit counter 0 — hence every later `iterblocks`
+    call (blocks, the states observable at every yield, final state, exception) and every later `remove` is the one
+    a fresh object gives -/
+theorem reset_is_fresh (p : Padder) (st : PadState) :
+    p.reset st = {} ∧
+    ((p.reset st).padflag = false ∧ (p.reset st).bitcnt = 0 ∧ (p.reset st).padcnt = 0) ∧
+    (∀ m L padding, p.iterblocks (p.reset st) m L padding = p.iterblocks {} m L padding) ∧
+    (∀ c, p.remove (p.reset st) c = p.remove {} c) :=
+  ⟨rfl, ⟨rfl, rfl, rfl⟩, fun _ _ _ => rfl, fun _ => rfl⟩
+
+/-- any history (iterblocks calls, resets, removes) that follows a reset — after an arbitrary earlier history `pre` from
+    an arbitrary state — gives step for step the results of the same history on a fresh object -/
+theorem history_after_reset (p : Padder) (st : PadState) (em : List Nat) (pre post : List PadStep) :
+    p.runSteps st em (pre ++ .reset :: post) = p.runSteps st em pre ++ .state {} :: p.runSteps {} [] post := by
+  induction pre generalizing st em with
+  | nil => rfl
+  | cons a pre ih =>
+    cases a with
+    | call m l f => simp only [List.cons_append, Padder.runSteps, ih]
+    | reset => simp only [List.cons_append, Padder.runSteps, ih]
+    | remove c => simp only [List.cons_append, Padder.runSteps, ih]
+
+/-- in particular: a first message, a reset, then a second message fed in block-aligned pieces gives exactly the
+    blocks, counters and final state of the second message on a fresh object: its unpadded pieces report
+    `padcnt = 0`, whatever pad the first message got -/
+theorem reset_then_unpadded (p : Padder) (hv : Valid p) (st : PadState)
+    (m : List Nat) (L : Option Nat) (hL : effLen m L ≤ 8 * m.length) (hmul : effLen m L % p.blocksize = 0) :
+    (p.iterblocks (p.reset st) m L false).err = none ∧
+    (p.iterblocks (p.reset st) m L false).final = { padflag := false, bitcnt := effLen m L, padcnt := 0 } ∧
+    ∀ y ∈ (p.iterblocks (p.reset st) m L false).yields, y.2.padcnt = 0 ∧ y.2.padflag = false := by
+  obtain ⟨h1, _, _, h4, h5⟩ := unpadded_call p hv (p.reset st) rfl m L hL hmul
+  refine ⟨h1, by rw [h5]; simp [Padder.reset], ?_⟩
+  intro y hy
+  obtain ⟨i, hi, rfl⟩ := List.getElem_of_mem hy
+  rw [(h4 i hi).2]
+  exact ⟨rfl, rfl⟩
+
 /-! ### non-vacuity: the hypotheses are inhabited by the library's real configurations -/
 
 example : Valid ⟨.md 32, 512⟩ := ⟨by decide, by decide, by decide⟩
@@ -373,5 +413,19 @@ example : pkcs7WellPadded 8 [1, 2, 3, 3, 3] := ⟨3, rfl, by decide, by decide, 
 example : ¬ pkcs7WellPadded 8 [1, 2, 3, 2, 3] := by
   rintro ⟨q, h1, _, _, _, h5⟩
   simp at h1; subst h1; simp at h5
+
+/-- zero padding on 64-bit blocks: 20 message bytes leave (padflag, bitcnt, padcnt) = (true, 160, 32) — not the fresh
+    state — and after the reset 16 unpadded bytes leave (false, 128, 0), the whole string survives `remove` -/
+example : ((⟨.null, 64⟩ : Padder).iterblocks {} (List.replicate 20 0x41) none true).final
+    = { padflag := true, bitcnt := 160, padcnt := 32 } := by decide +kernel
+example :
+    ((⟨.null, 64⟩ : Padder).iterblocks
+      ((⟨.null, 64⟩ : Padder).reset ((⟨.null, 64⟩ : Padder).iterblocks {} (List.replicate 20 0x41) none true).final)
+      (List.replicate 16 0x42) none false).final = { padflag := false, bitcnt := 128, padcnt := 0 } := by decide +kernel
+example :
+    ((⟨.null, 64⟩ : Padder).remove { padflag := false, bitcnt := 128, padcnt := 0 } (List.replicate 16 0x42)).toOption
+      = some (List.replicate 16 0x42) := by decide +kernel
+example : ((⟨.null, 64⟩ : Padder).runSteps {} []
+    [.call (List.replicate 20 0x41) none true, .reset, .call (List.replicate 16 0x42) none false]).length = 3 := rfl
 
 end Proofs.C09
